@@ -174,6 +174,12 @@ def route (wk : List (Wk τ)) : List SOut → List (Wk τ)
       | some w => route (if w.alive then wk.set n { w with inbox := w.inbox ++ [c] } else wk) rest
       | none => route wk rest
 
+/-- once the end marker of a dead worker was seen its channel is closed: every further send raises `OSError` -/
+def brokenAfter (m : WMsg τ) (broken alive : Bool) : Bool :=
+  match m with
+  | .endMarker => broken || !alive
+  | _ => broken
+
 /-- one step of the receiver thread of worker `k`: `process_from_remote` on the next message -/
 def recvStep (st : State σ τ) (k : Nat) : Option (State σ τ) :=
   match st.wk[k]? with
@@ -185,8 +191,7 @@ def recvStep (st : State σ τ) (k : Nat) : Option (State σ τ) :=
       let fl := st.ctl.env.flags.get k
       let r := Receiver.step { down := fl.down, shutdownSent := fl.sent } (toRecv k m)
       -- once the end marker of a dead worker was seen the channel is closed: every further send raises `OSError`
-      let fl' : NodeFlags := { down := r.1.down, sent := r.1.shutdownSent,
-                               broken := match m with | .endMarker => fl.broken || !w.alive | _ => fl.broken }
+      let fl' : NodeFlags := { down := r.1.down, sent := r.1.shutdownSent, broken := brokenAfter m fl.broken w.alive }
       let outs' := if r.2.2 && !fl.broken then st.ctl.env.outs ++ [SOut.shutdown k] else st.ctl.env.outs
       let env' : Env := { flags := AList.set st.ctl.env.flags k fl', outs := outs' }
       let wk1 := st.wk.set k { w with outbox := rest, posted := w.posted ++ r.2.1.map (ofPost k) }
